@@ -58,11 +58,22 @@ def ensure_driver():
             env=dict(os.environ, CARGO_NET_OFFLINE="true"))
 
 
-def facts_path(cfg, repo=REPO, crate="litep2p"):
-    """Return the path of the fact file for the current tree, extracting if necessary."""
+def facts_path(cfg, repo=REPO, crate="litep2p", aliases=None):
+    """Return the path of the fact file for the current tree, extracting if necessary.  `aliases`: lines of the rename
+    canonicalisation (engine/normalise.py) handed to the driver; they are part of the cache key."""
     ensure_driver()
     os.makedirs(os.path.join(CACHE, "facts"), exist_ok=True)
     th = tree_hash(cfg, repo)
+    afile = None
+    if aliases:
+        text = "".join(l + "\n" for l in sorted(aliases))
+        ah = hashlib.sha256(text.encode()).hexdigest()[:12]
+        afile = os.path.join(CACHE, "facts", "aliases-%s.txt" % ah)
+        if not os.path.exists(afile):
+            with open(afile + ".tmp%d" % os.getpid(), "w") as f:
+                f.write(text)
+            os.rename(afile + ".tmp%d" % os.getpid(), afile)
+        th = th + "-a" + ah
     out = os.path.join(CACHE, "facts", "%s-%s.jsonl" % (cfg, th))
     if os.path.exists(out):
         os.utime(out)
@@ -72,7 +83,7 @@ def facts_path(cfg, repo=REPO, crate="litep2p"):
     try:
         if os.path.exists(out):
             return out
-        _extract(cfg, repo, crate, out)
+        _extract(cfg, repo, crate, out, afile)
         _prune()
         return out
     finally:
@@ -80,7 +91,7 @@ def facts_path(cfg, repo=REPO, crate="litep2p"):
         lock.close()
 
 
-def _extract(cfg, repo, crate, out):
+def _extract(cfg, repo, crate, out, afile=None):
     t0 = time.time()
     target = os.path.join(CACHE, "target-%s" % cfg)
     os.makedirs(target, exist_ok=True)
@@ -101,6 +112,9 @@ def _extract(cfg, repo, crate, out):
         "CARGO_NET_OFFLINE": "true",
     })
     env.pop("RUSTC_WRAPPER", None)
+    env.pop("LPV_ALIASES", None)
+    if afile:
+        env["LPV_ALIASES"] = afile
     cmd = ["cargo", "+nightly", "check", "--offline", "--lib"] + CONFIGS[cfg]
     p = subprocess.run(cmd, cwd=repo, env=env, stdout=subprocess.PIPE, stderr=subprocess.STDOUT, text=True)
     produced = os.path.join(tmpdir, "facts-%s.jsonl" % crate)
@@ -117,7 +131,7 @@ def _extract(cfg, repo, crate, out):
     sys.stderr.write("[extract] %s facts in %.1fs -> %s\n" % (cfg, time.time() - t0, out))
 
 
-def _prune(keep=16):
+def _prune(keep=48):
     for cfg in CONFIGS:
         fs = sorted(glob.glob(os.path.join(CACHE, "facts", cfg + "-*.jsonl")), key=os.path.getmtime, reverse=True)
         for f in fs[keep:]:
